@@ -232,7 +232,13 @@ pub fn gen_step(s: &mut Pool2, rng: &mut Rng, ctx: &mut Ctx) -> Step {
             // reuse the fee generator through a scratch cfg
             let mut r2 = Rng::new(rng.next_u64());
             let f = crate::scen::pool2::Pool2::gen_cfg_fees(&mut r2);
-            Op::SetFees { fees: f }
+            // every third change re-splits the same total between the three fees
+            if rng.chance(1, 3) {
+                let c = &s.cfg.fees;
+                Op::SetFees { fees: if rng.chance(1, 2) { [c[1].clone(), c[2].clone(), c[0].clone()] } else { [c[2].clone(), c[0].clone(), c[1].clone()] } }
+            } else {
+                Op::SetFees { fees: f }
+            }
         }
         5 => {
             let side = rng.idx(2);
